@@ -438,6 +438,14 @@ def self_targets(_n):
             A.For(A.lst(V("i"), A.Index(V("xs"), I(0))), A.lst(I(7), I(8)), []), pr(V("xs"))]
 
 
+def hosted(_n, okname, position):
+    """an ordinary succeeding operation evaluated in one of the 55 expression hosts (failgen.place), inside a statement context and a call chain"""
+    from . import failgen as F
+    h = int(__import__("hashlib").sha1(("%s/%s" % (okname, position)).encode()).hexdigest()[:8], 16)
+    prog, meta = F.generate(h, kind="ok:" + okname, position=position, ctx=F.CONTEXTS[h % len(F.CONTEXTS)], depth=(0, 0, 1, 2)[(h >> 4) % 4])
+    return prog
+
+
 def elseif_dup(n):
     """several arms test the same literal: the first one that matches runs"""
     half = n // 2 + 1
@@ -769,6 +777,7 @@ ENTRIES = {
     "istr_keys": ("C12 C15 C13 C16", istr_keys, [()], 0, {"err": True}),
     "self_targets": ("C13 C02 C05 C12 C11", self_targets, [()], 0, {}),
     "typefn_named_missing": ("C12 C14 C16 C17", typefn_named_missing, [(nm, how) for nm in ("type", "len", "print", "this", "_") for how in ("object", "empty", "nested")], 0, {"err": True}),
+    "hosted": ("", hosted, [], 0, {"err": None}),
     "name_coincidence": ("C20 C04 C12 C14", name_coincidence, [()], 0, {}),
     "big_text_interp": ("C15 C03", big_text, [(c, ph, "interp") for c in ("é", "😀", "a") for ph in (0, 1)], -70000, {"err": True}),
     "chain_error": ("C08 C16 C18 C06 C17", chain_error, [("type_mid",), ("type_last",), ("type_first",), ("overflow_first",), ("overflow_last",)], 129, {"err": True}),
@@ -820,6 +829,13 @@ def descs_for(prop, tier):
     rng = core.rng_for(prop + "/scale")
     out = []
     for name, (props, fn, variants, mx, opt) in ENTRIES.items():
+        if name == "hosted":
+            from . import failgen as F
+            for okname, (_, okprops) in F.EXPR_OK.items():
+                if prop in ("C01", "C02", "C17", "C18") or prop in okprops.split():
+                    for position in F.POSITIONS:
+                        out.append(("scale", name, 0, (okname, position), prop))
+            continue
         if prop not in ("C01", "C02") and prop not in props.split():
             continue
         sizes = list(sizes_for(name, tier))
